@@ -53,30 +53,36 @@ func (c09) Chunk(tier string) int {
 
 func (c09) Thresholds(tier string) map[string]int64 {
 	return map[string]int64{
-		"cases":                         1500,
-		"executions-in-process":         4500,
-		"executions-in-fresh-processes": 4500,
-		"fresh-processes-spawned":       90,
-		"unrelated-runners-run-before":  5000,
-		"traces-with>=3-draw-sites":     500,
-		"seed:long-overflowing":         150,
-		"seed:all-zeros":                60,
-		"seed:single-character":         60,
-		"range-draws:dice":              30000,
-		"range-draws:random_range":      30000,
-		"range-draws:random":            15000,
-		"range:dice(1)":                 1000,
-		"range:a==b":                    1000,
-		"range:negative-lower-bound":    5000,
-		"range:span>=2^31":              1000,
-		"range-draws-with-empty-seed":   10000,
-		"draw-hit-lower-bound":          2000,
-		"draw-hit-upper-bound":          2000,
+		"cases":                                   1500,
+		"executions-in-process":                   4500,
+		"executions-in-fresh-processes":           4500,
+		"fresh-processes-spawned":                 90,
+		"unrelated-runners-run-before":            5000,
+		"traces-with>=3-draw-sites":               500,
+		"seed:long-overflowing":                   150,
+		"seed:all-zeros":                          60,
+		"seed:single-character":                   60,
+		"range-draws:dice":                        30000,
+		"range-draws:random_range":                30000,
+		"range-draws:random":                      15000,
+		"range:dice(1)":                           1000,
+		"range:a==b":                              1000,
+		"range:negative-lower-bound":              5000,
+		"range:span>=2^31":                        1000,
+		"range-draws-with-empty-seed":             10000,
+		"draw-hit-lower-bound":                    2000,
+		"draw-hit-upper-bound":                    2000,
+		"program-with-a-non-string-jump":          50,
+		"runners-created-while-another-was-alive": 1500,
+		"extreme-search:draws-walked":             500000000,
+		"extreme-draws-driven-through-the-runner": 150,
+		"extreme-draws-reproduced-by-the-runner":  150,
+		"extreme-draws>=1-2^-25":                  15,
 	}
 }
 
 func (c09) Rule() string {
-	return "case = one generated program that uses dice, random and random_range in lines, if conditions, option conditions, set statements and computed jump targets (bounds up to 9*10^15, so spans beyond 2^31 and 2^32 occur), one program in three with a line that fails on an unknown variable (error texts are part of the digest), one seed over [0-9a-z] (lengths 1-40: single characters, all zeros, long seeds that overflow the base-36 accumulation) and one PRNG choice policy. The case is executed: twice in-process back to back; once more in-process after 1-20 unrelated runners (other seeds, the empty seed) were created and stepped; and in 3 fresh processes per chunk of cases (GOMAXPROCS 1 / 4 / 16, executing the chunk forwards, backwards and shuffled, so that 'what ran before' differs). Oracle: all executions have the same SHA-256 digest over every element (node, text, tags, attribute list, options and flags), every error text and the final GetValues(). Range sub-workload per case: 70 captured draws with bounds incl. dice(1), a == b, negative bounds and spans up to 2^31, with the case's seed or the empty seed: dice(n) is an integer in [1,n], random_range(a,b) an integer in [a,b], random() in [0,1). Non-trivial: the trace has >=3 random draw sites and the program branches on a draw. Distinct by hash of scripts+seed+choice policy."
+	return "case = one generated program that uses dice, random and random_range in lines, if conditions, option conditions, set statements and computed jump targets (bounds up to 9*10^15, so spans beyond 2^31 and 2^32 occur), one program in three with a line that fails on an unknown variable (error texts are part of the digest), one seed over [0-9a-z] (lengths 1-40: single characters, all zeros, long seeds that overflow the base-36 accumulation) and one PRNG choice policy. The case is executed: twice in-process back to back; once more in-process after 1-20 unrelated runners (other seeds, the empty seed) were created and stepped; and in 3 fresh processes per chunk of cases (GOMAXPROCS 1 / 4 / 16, executing the chunk forwards, backwards and shuffled, so that 'what ran before' differs). Oracle: all executions have the same SHA-256 digest over every element (node, text, tags, attribute list, options and flags), every error text and the final GetValues(). Range sub-workload per case: 70 captured draws with bounds incl. dice(1), a == b, negative bounds and spans up to 2^31, with the case's seed or the empty seed: dice(n) is an integer in [1,n], random_range(a,b) an integer in [a,b], random() in [0,1). Non-trivial: the trace has >=3 random draw sites and the program branches on a draw. Distinct by hash of scripts+seed+choice policy. Each execution is also repeated with other runners created (and partly driven) between its creation and its steps. One case per chunk aims at the bounds of random(): the harness walks the generator (internal/rng) over 48 million draws of PRNG seeds, keeps the 10 draws closest to 1 and the 3 closest to 0, and makes the real runner produce exactly those draws (a script calling random() k+1 times under that seed); every value returned through the runner must be in [0,1). One program in fifteen contains a jump whose destination is a number, boolean or draw (error texts are part of the digest)."
 }
 
 func (c09) Assumptions() []string {
@@ -296,6 +302,17 @@ func (p c09) Run(c *core.Ctx) {
 		b := &prog.Nodes[0].Body
 		at := r.Range(min(8, len(*b)), len(*b))
 		bad := &hast.Stmt{K: hast.SLine, Parts: []hast.Part{hast.Lit("oops "), hast.Inl(hast.Var(r.Pick("undefined_var", "nope")))}}
+		switch r.Intn(5) {
+		case 0:
+			// a jump whose destination is not a string (a draw, a number, a boolean): the error text
+			// must be the same in every execution
+			bad = &hast.Stmt{K: hast.SJump, X: []*hast.Expr{hast.Call("dice", hast.Num("6")), hast.Num("3"), hast.Bool(true), hast.Call("random")}[r.Intn(4)]}
+			c.Feature("program-with-a-non-string-jump")
+		case 1:
+			bad = &hast.Stmt{K: hast.SCommand, Name: "nosuchcommand", Args: []hast.CmdArg{{X: hast.Call("dice", hast.Num("20"))}}}
+		case 2:
+			bad = &hast.Stmt{K: hast.SSet, Var: "fuel", Op: "=", X: hast.Str("text")}
+		}
 		nb := append([]*hast.Stmt{}, (*b)[:at]...)
 		nb = append(nb, bad)
 		*b = append(nb, (*b)[at:]...)
@@ -341,6 +358,10 @@ func (p c09) Run(c *core.Ctx) {
 		c.Violate("an execution differs after unrelated runners (other seeds, empty seed) ran in the same process", detail(map[string]any{"execution_after_unrelated_runners": s3}))
 		return
 	}
+	p.interleaved(c, scripts, seed, choiceSeed, d1, s1)
+	if c.Failed() {
+		return
+	}
 	if sites >= 3 && branching {
 		c.Nontrivial(strings.Join(scripts, "\x00"), seed, fmt.Sprint(choiceSeed))
 	}
@@ -349,6 +370,9 @@ func (p c09) Run(c *core.Ctx) {
 	}
 	c09Batch = append(c09Batch, c09Item{Idx: c.Idx, Scripts: scripts, Seed: seed, ChoiceSeed: choiceSeed, Digest: d1, Summary: s1})
 	p.ranges(c, seed)
+	if c.Idx%50 == 7 && !c.Failed() {
+		p.extremes(c)
+	}
 }
 
 // ranges: captured draws with hostile bounds.
